@@ -99,6 +99,22 @@ func (g *vfVecGen) drawNonZero(rt *rapid.T, label string) []float32 {
 	return v
 }
 
+// vfGenRemovePayload draws the vector carried by the node handed to Remove. Remove is documented
+// to match on the id only ("only the ID field is used for matching"), so the payload may be
+// absent, any vector of the index's dimension (unrelated to the stored one), or of another length.
+func vfGenRemovePayload(rt *rapid.T, g *vfVecGen) []float32 {
+	switch rapid.IntRange(0, 5).Draw(rt, "rm_payload") {
+	case 0, 1, 2:
+		return nil
+	case 3, 4:
+		v := g.draw(rt, "rm_vec")
+		g.made = g.made[:len(g.made)-1]
+		return v
+	default:
+		return make([]float32, g.dim+1)
+	}
+}
+
 // vfGenID draws a fresh non-zero id: mostly small, sometimes huge (container boundaries).
 func vfGenFreshID(rt *rapid.T, used map[uint32]bool) uint32 {
 	for tries := 0; ; tries++ {
